@@ -122,6 +122,45 @@ func (d *vtMcrew) Boot() {}
 
 func (d *vtMcrew) Stop() { d.cancel() }
 
+// Two requesters make a timer under the same id at the same moment (300 rounds, released together): the service accepts
+// exactly one of them.  The outcome is reported as a two-request trace: the round in which both were accepted if there
+// is one (the second acceptance of a pending id is no behaviour of the service), otherwise an ordinary round.
+func init() {
+	vtExtraResults = func(impl string) []*vtResult {
+		ts := NewTimers(func(ctx context.Context, msg interface{}) error { return nil })
+		ctx, cancel := context.WithCancel(context.Background())
+		defer cancel()
+		bothAccepted := false
+		for round := 0; round < 300 && !bothAccepted; round++ {
+			id := fmt.Sprintf("dup-%d", round)
+			start := make(chan bool)
+			res := make(chan error, 2)
+			for k := 0; k < 2; k++ {
+				go func(k int) {
+					<-start
+					res <- ts.Add(ctx, id, k, time.Hour)
+				}(k)
+			}
+			close(start)
+			e1, e2 := <-res, <-res
+			if e1 == nil && e2 == nil {
+				bothAccepted = true
+			}
+			ts.Rem(ctx, id)
+		}
+		ops := []vtOp{{W: -1, A: "add", Id: 0, D: 3600000000}, {W: -1, A: "add", Id: 0, D: 3600000000}}
+		ev := []vtEvent{
+			{K: "add", T: 10, T1: 20, Id: 0, D: 3600000000, Lbl: 0, Ok: true, In: -1},
+			{K: "snap", T: 21, T1: 21, Ids: []int{0}, In: -1},
+			{K: "add", T: 30, T1: 40, Id: 0, D: 3600000000, Lbl: 1, Ok: bothAccepted, In: -1},
+			{K: "snap", T: 41, T1: 41, Ids: []int{0}, In: -1},
+			{K: "snap", T: 50, T1: 50, Ids: []int{0}, In: -1},
+		}
+		return []*vtResult{{N: 1000000, Kind: "concurrent-duplicate-add", Impl: impl, Ops: ops, Events: ev, End: 60,
+			Grace: int64(time.Second / time.Microsecond)}}
+	}
+}
+
 func TestVerifTimers(t *testing.T) {
 	vtMain(t, "mcrew", vtNewMcrew)
 }
